@@ -73,7 +73,7 @@ fn dec_strategy() -> BS<Dec> {
     .boxed()
 }
 
-fn dec_oracle(c: &Dec) -> Verdict {
+pub fn dec_oracle(c: &Dec) -> Verdict {
     let d = mk(c.c);
     let cnt = count(d);
     let (sign, days, h, m, s, ms, us, ns) = lib!(d.decompose());
@@ -180,7 +180,7 @@ fn text_of(c: &Text) -> String {
     s
 }
 
-fn text_oracle(c: &Text) -> Verdict {
+pub fn text_oracle(c: &Text) -> Verdict {
     let txt = text_of(c);
     let mut sum = 0i128;
     let mut fractional = false;
@@ -248,7 +248,7 @@ fn offset_strategy() -> BS<Offset> {
         .boxed()
 }
 
-fn offset_oracle(c: &Offset) -> Verdict {
+pub fn offset_oracle(c: &Offset) -> Verdict {
     let sep = if c.colon { ":" } else { "" };
     let mut txt = format!("{}{:02}{}{:02}", if c.neg { '-' } else { '+' }, c.h, sep, c.m);
     if let Some(s) = c.s {
@@ -269,5 +269,6 @@ pub fn subs() -> Vec<Box<dyn DynSub>> {
         sub(Sub { name: "c11.unit_text", source: Source::Gen(text_strategy, 300_000, 10_000_000), oracle: text_oracle, known: no_known, hang_is_violation: false }),
         sub(Sub { name: "c11.spellings", source: Source::Enum(spelling_enum, |_| true), oracle: spelling_oracle, known: no_known, hang_is_violation: false }),
         sub(Sub { name: "c11.offsets", source: Source::Gen(offset_strategy, 100_000, 2_000_000), oracle: offset_oracle, known: no_known, hang_is_violation: false }),
+        crate::props::fuzzsub::c11_fuzz(),
     ]
 }
